@@ -24,7 +24,7 @@ func corpus(w *lib.Writer) {
 	for _, s := range []string{"a\nb\x00c\"d\\e\r\xc8", "\x001", "\n\r", "\r\n", "\\n", "\"", "", string(all)} {
 		runCase(w, in{Kind: "quote", S: hx(s)}) // C16-4
 	}
-	runCase(w, in{Kind: "num", Rd: 0, S: hx("1e2")}) // C16-1
+	runCase(w, in{Kind: "num", Rd: 0, S: hx("1e2")})                                                           // C16-1
 	for _, s := range []string{"\xc2\xa010", "10\xc2\x85", "\xe2\x80\x8310\xe3\x80\x80", "\xa010", "10\x85"} { // Unicode spaces are not blanks
 		runCase(w, in{Kind: "num", Rd: 0, S: hx(s)})
 		runCase(w, in{Kind: "num", Rd: 1, S: hx(s)})
